@@ -31,19 +31,24 @@ CONSTANTS
   Fmt2,       \* "" or a second format: ... and inside this one's too (cross-format chains)
   MaxLevel,   \* bound on behaviour length (safety net)
   Shape,      \* "" or "chain": restricts the trees that are built (checked on the successor state)
+  MaxEdits,   \* in-place edits of the built model (0: none); every state after an edit is a case too
+  EditKinds,  \* subset of {"card","addchild","rmkid","abs","attrval","rmctc","ctcop","rename"}
   Walks,      \* 0: exhaustive exploration; n > 0: n seeded random walks ("random larger ones")
   Seed        \* seed of the walks (VERIF_SEED)
 
-VARIABLES model, hist, stage, pos, walk
-vars == <<model, hist, stage, pos, walk>>
+VARIABLES model, hist, stage, pos, walk,
+          base    \* the model as it was when the first in-place edit was made (edit histories), else the empty model
+vars == <<model, hist, stage, pos, walk, base>>
 
 FName(i) == "f" \o ToString(i)
 NF       == Len(model.feats)
+NoModel  == [root |-> "", feats |-> <<>>, rels |-> <<>>, ctcs |-> <<>>]
 
 Init == /\ model = NewModelF(FName(1))
         /\ hist  = <<[a |-> "NewModel", root |-> FName(1)]>>
         /\ stage = 0 /\ pos = 1
         /\ walk \in (IF Walks = 0 THEN {0} ELSE 1..Walks)
+        /\ base = NoModel
 
 CardChoices(k) ==
   {<<lo, hi>> \in (0..k) \X (MinHi..k) : lo <= hi}
@@ -96,7 +101,84 @@ ReplaceConstraint(t) ==
          /\ hist'  = Append(hist, [a |-> "ReplaceConstraint", n |-> model.ctcs[k].name, ast |-> t])
   /\ stage' = 5 /\ pos' = pos + 1
 
+---------------------------------------------------------------------------
+(* In-place edits (stage 6): the model that was built - and possibly        *)
+(* observed, analysed, serialised, hashed - is changed through public       *)
+(* attributes, and observed again.  Every state after an edit is a case;    *)
+(* hist then holds the build calls followed by the edit calls.              *)
+NFresh    == Cardinality({i \in DOMAIN hist : hist[i].a \in {"EditAddChild", "EditRename"}})
+FreshName == FName(N + 1 + NFresh)
+CtcVars   == UNION {VarsOf(model.ctcs[i].ast) : i \in DOMAIN model.ctcs}
+EditPhase == MaxEdits > 0 /\ NF >= 2 /\ (stage < 6 \/ pos < MaxEdits)
+EnterEdit == stage' = 6 /\ pos' = (IF stage = 6 THEN pos + 1 ELSE 1)
+Ref(j)    == [o |-> model.rels[j].owner, ri |-> RelPos(model, j)]
+
+EditChoices ==
+  (IF "card" \in EditKinds
+   THEN UNION {{[k |-> "card", j |-> j, i |-> 0, x |-> "", lo |-> c[1], hi |-> c[2]] :
+                   c \in CardChoices(NKids(model.rels[j])) \ {<<model.rels[j].lo, model.rels[j].hi>>}} : j \in DOMAIN model.rels}
+   ELSE {})
+  \cup (IF "addchild" \in EditKinds
+        THEN {[k |-> "addchild", j |-> j, i |-> 0, x |-> "", lo |-> 0, hi |-> 0] : j \in DOMAIN model.rels} ELSE {})
+  \cup (IF "rmkid" \in EditKinds
+        THEN UNION {{[k |-> "rmkid", j |-> j, i |-> i, x |-> "", lo |-> 0, hi |-> 0] :
+                        i \in {i \in DOMAIN model.rels[j].kids :
+                                 /\ IsLeaf(model, model.rels[j].kids[i]) /\ model.rels[j].kids[i] \notin CtcVars
+                                 /\ NKids(model.rels[j]) >= 2
+                                 /\ model.rels[j].lo <= NKids(model.rels[j]) - 1
+                                 /\ (model.rels[j].hi = Star \/ model.rels[j].hi <= NKids(model.rels[j]) - 1)}} :
+                    j \in DOMAIN model.rels}
+        ELSE {})
+  \cup (IF "abs" \in EditKinds
+        THEN {[k |-> "abs", j |-> 0, i |-> i, x |-> "", lo |-> 0, hi |-> 0] : i \in 1..NF} ELSE {})
+  \cup (IF "attrval" \in EditKinds
+        THEN UNION {{[k |-> "attrval", j |-> a, i |-> i, x |-> v.val, lo |-> 0, hi |-> 0] :
+                        a \in DOMAIN model.feats[i].attrs, v \in {v \in AttrVals : v.val # "n"}} : i \in 1..NF}
+        ELSE {})
+  \cup (IF "rmctc" \in EditKinds
+        THEN {[k |-> "rmctc", j |-> 0, i |-> i, x |-> "", lo |-> 0, hi |-> 0] : i \in DOMAIN model.ctcs} ELSE {})
+  \cup (IF "ctcop" \in EditKinds
+        THEN UNION {{[k |-> "ctcop", j |-> 0, i |-> i, x |-> o, lo |-> 0, hi |-> 0] :
+                        o \in {o \in CtcBinOps : model.ctcs[i].ast.op \in CtcBinOps /\ o # model.ctcs[i].ast.op}} :
+                    i \in DOMAIN model.ctcs}
+        ELSE {})
+  \cup (IF "rename" \in EditKinds
+        THEN {[k |-> "rename", j |-> 0, i |-> i, x |-> "", lo |-> 0, hi |-> 0] :
+                 i \in {i \in 1..NF : model.feats[i].name \notin CtcVars}}
+        ELSE {})
+
+EditBy(d) ==
+  /\ EditPhase /\ EnterEdit
+  /\ CASE d.k = "card" ->
+            /\ model' = SetCardF(model, d.j, d.lo, d.hi)
+            /\ hist'  = Append(hist, [a |-> "EditCard", o |-> Ref(d.j).o, ri |-> Ref(d.j).ri, lo |-> d.lo, hi |-> d.hi])
+       [] d.k = "addchild" ->
+            /\ model' = AddChildF(model, d.j, FreshName)
+            /\ hist'  = Append(hist, [a |-> "EditAddChild", o |-> Ref(d.j).o, ri |-> Ref(d.j).ri, n |-> FreshName])
+       [] d.k = "rmkid" ->
+            /\ model' = RemoveKidF(model, d.j, d.i)
+            /\ hist'  = Append(hist, [a |-> "EditRemoveKid", o |-> Ref(d.j).o, ri |-> Ref(d.j).ri, n |-> model.rels[d.j].kids[d.i]])
+       [] d.k = "abs" ->
+            /\ model' = ToggleAbstractF(model, model.feats[d.i].name)
+            /\ hist'  = Append(hist, [a |-> "EditAbstract", f |-> model.feats[d.i].name])
+       [] d.k = "attrval" ->
+            /\ model.feats[d.i].attrs[d.j].val # d.x
+            /\ model' = SetAttrValF(model, model.feats[d.i].name, d.j, d.x)
+            /\ hist'  = Append(hist, [a |-> "EditAttrVal", f |-> model.feats[d.i].name, k |-> d.j, val |-> d.x])
+       [] d.k = "rmctc" ->
+            /\ model' = RemoveCtcF(model, d.i)
+            /\ hist'  = Append(hist, [a |-> "EditRemoveCtc", i |-> d.i])
+       [] d.k = "ctcop" ->
+            /\ model' = SetCtcOpF(model, d.i, d.x)
+            /\ hist'  = Append(hist, [a |-> "EditCtcOp", i |-> d.i, op |-> d.x])
+       [] d.k = "rename" ->
+            /\ model' = RenameF(model, model.feats[d.i].name, FreshName)
+            /\ hist'  = Append(hist, [a |-> "EditRename", f |-> model.feats[d.i].name, n |-> FreshName])
+
+EditStep == \E d \in EditChoices : EditBy(d)
+
 Step ==
+  \/ EditStep
   \/ \E o \in 1..N, k \in 1..MaxKids : \E c \in CardChoices(k) : AddRelation(o, k, c[1], c[2])
   \/ \E i \in 1..N : SetAbstract(i)
   \/ \E i \in 1..N, t \in Types : SetType(i, t)
@@ -133,7 +215,9 @@ RandomStep ==
       grow  == stage = 0 /\ NF < N
   IN
   \E r \in {PickS(1..100, 1)} :
-      IF grow /\ (r <= 70 \/ kinds = {})
+      IF EditPhase /\ EditChoices # {} /\ (stage = 6 \/ PickS(1..100, 21) <= 25 \/ (~grow /\ kinds = {}))
+      THEN \E d \in {PickS(EditChoices, 22)} : EditBy(d)
+      ELSE IF grow /\ (r <= 70 \/ kinds = {})
       THEN \E o \in {PickS(pos..NF, 2)}, k \in {PickS(1..MinI(MaxKids, N - NF), 3)} :
               \E c \in {PickS(CardChoices(k), 4)} : AddRelation(o, k, c[1], c[2])
       ELSE kinds # {} /\ \E kd \in {PickS(kinds, 5)} :
@@ -155,6 +239,7 @@ ChainOnly == \A j \in DOMAIN model.rels : model.rels[j].owner = FName(j)
 ShapeOK == Shape = "" \/ (Shape = "chain" /\ ChainOnly)
 Next == /\ TLCGet("level") < MaxLevel
         /\ (IF Walks = 0 THEN Step ELSE RandomStep) /\ UNCHANGED walk
+        /\ base' = (IF stage' = 6 /\ stage < 6 THEN model ELSE base)
         /\ ShapeOK'
 
 Spec == Init /\ [][Next]_vars
@@ -164,7 +249,9 @@ LevelBound == TLCGet("level") <= MaxLevel
 
 ---------------------------------------------------------------------------
 (* Case emission: one JSON line per distinct state (generator runs only)   *)
-Emit == ((Fmt = "" \/ InFrag(Fmt, model)) /\ (Fmt2 = "" \/ InFrag(Fmt2, model))) => PrintT(ToJson([hist |-> hist, model |-> model]))
+Emit == ((Fmt = "" \/ InFrag(Fmt, model)) /\ (Fmt2 = "" \/ InFrag(Fmt2, model)))
+           => PrintT(ToJson(IF stage = 6 THEN [hist |-> hist, model |-> model, base |-> base]
+                                         ELSE [hist |-> hist, model |-> model]))
 
 \* under -simulate every sibling successor is evaluated: print only the states at the final level
 EmitSim == Emit
